@@ -193,7 +193,7 @@ def run(ctx):
                 do(ctx, 'C_roundtrip', [k, q, N, mode], nontrivial=('Cr', k, N, mode))
     ctx.res.exhaustive = True
     do(ctx, 'C_group', [], nontrivial='C_group')
-    for nm, qs in [(0, []), (0, [0, 1]), (1, [0, 1]), (4, [1, 2, 3]), (5, [0]), (5, [0, 1, 2]), (124, [0]), (130, [0]), (99, [0]), (100, [0, 1]), (111, [])]:
+    for nm, qs in [(0, []), (0, [0, 1]), (1, [0, 1]), (2, [0, 1]), (2, []), (3, [0, 1]), (3, []), (4, []), (1, []), (4, [1, 2, 3]), (5, [0]), (5, [0, 1, 2]), (124, [0]), (130, [0]), (99, [0]), (100, [0, 1]), (111, [])]:
         do(ctx, 'guards', [nm, qs], nontrivial=('g', nm, str(qs)))
     # every call of a named-gate constructor hands out a fresh table (users rotate / transform gate maps in place, a CliffordMap is a PauliList)
     for sd in range(40):
